@@ -45,6 +45,10 @@ def rule_buffer(chk):
     apps = [(n, c) for n in cfg.live for c, m in calls_in_node(n) if isinstance(c.func, ast.Attribute) and common.is_self_attr(c.func.value, "messages")
             and c.func.attr in ("append", "appendleft", "insert", "extend")]
     problems = []
+    rebinds = [n for n in iter_own_nodes(call.node) if isinstance(n, (ast.Assign, ast.AugAssign)) and any(
+        common.is_self_attr(t, "messages") for t in (n.targets if isinstance(n, ast.Assign) else [n.target]))]
+    if rebinds:
+        problems.append("the buffer list is rebound in __call__ (line %d): add() re-delivers from the list object it captured, so messages appended after a rebind are delivered nowhere" % rebinds[0].lineno)
     rng = cfg.count_range(cfg.entry, [cfg.exit], lambda x: sum(1 for n, c in apps if n is x))
     if rng != (1, 1) or not all(c.func.attr == "append" and len(c.args) == 1 and isinstance(c.args[0], ast.Name) and c.args[0].id == mparam for n, c in apps):
         problems.append("each call must append exactly the given message at the tail once (range %s)" % (rng,))
@@ -53,7 +57,7 @@ def rule_buffer(chk):
         # explicit eviction
         ev = [(n, c) for n in cfg.live for c, m in calls_in_node(n) if isinstance(c.func, ast.Attribute) and common.is_self_attr(c.func.value, "messages") and c.func.attr == "pop"]
         dels = [n for n in cfg.live if isinstance(n.ast, ast.Delete) and "self.messages" in unparse(n.ast)]
-        if not ev and not dels:
+        if not ev and not dels and not rebinds:
             problems.append("nothing is ever evicted: unbounded buffer")
         for n, c in ev:
             if not (len(c.args) == 1 and isinstance(c.args[0], ast.Constant) and c.args[0].value == 0):
@@ -133,6 +137,16 @@ def rule_handover(chk):
     # capture before replacement
     caps = [n for n in cfg.live if isinstance(n.ast, ast.Assign) and isinstance(n.ast.targets[0], ast.Name) and "self._destinations[0].messages" in unparse(n.ast.value)]
     repl = [n for n in cfg.live if isinstance(n.ast, ast.Assign) and any(common.is_self_attr(t, "_destinations") for t in n.ast.targets)]
+    inplace = [n for n in cfg.live for c, m in calls_in_node(n) if isinstance(c.func, ast.Attribute) and common.is_self_attr(c.func.value, "_destinations")
+               and c.func.attr in ("clear", "pop", "remove", "__delitem__")]
+    inplace += [n for n in cfg.live if isinstance(n.ast, (ast.Delete, ast.Assign)) and any(
+        isinstance(t, ast.Subscript) and common.is_self_attr(t.value, "_destinations") for t in (n.ast.targets if hasattr(n.ast, "targets") else []))]
+    if inplace:
+        chk.bad("C12.handover", "Destinations.add:buffer-swapped-out-by-rebinding", chk.where(add, inplace[0].lineno),
+                "`%s` empties the destination list in place: a logging thread that is iterating that very list inside send() runs on into the newly installed destinations (duplicate / out-of-order delivery); "
+                "the hand-over must rebind self._destinations to a fresh list" % inplace[0].text()[:60])
+        if not repl:
+            return
     chk.need(caps and repl, "Destinations.add: capture of the buffered list / replacement of _destinations not found")
     capname = caps[0].ast.targets[0].id
     fresh_capture = isinstance(caps[0].ast.value, ast.Call)  # list(...) snapshot is fine too
